@@ -961,21 +961,33 @@ func c03StartupFault(c *core.Ctx, p c03Params) {
 // before the held subscription returns. The first Serve call then returns, the second run
 // keeps exactly its own workers, stays started and works, and stops like any other.
 func c03RestartDuringSubscribe(c *core.Ctx, p c03Params) {
-	probe := newC03Svc(c, p.Workers)
-	if err := probe.rig.start(); err != nil {
-		c.Inconclusive("start: " + err.Error())
-		return
+	lastOf := map[bool]int{}
+	for _, noQueue := range []bool{false, true} {
+		probe := newC03Svc(c, p.Workers)
+		if noQueue {
+			probe.rig.S.SetQueueGroup("")
+		}
+		if err := probe.rig.start(); err != nil {
+			c.Inconclusive("start: " + err.Error())
+			return
+		}
+		lastOf[noQueue] = len(probe.rig.C.Subs())
+		probe.rig.stop()
 	}
-	last := len(probe.rig.C.Subs())
-	probe.rig.stop()
 	for cy := 0; cy < p.Cycles; cy++ {
 		workers := []int{p.Workers, 1, 8}[cy%3]
 		s := newC03Svc(c, workers)
+		// half of the cycles without queue group (plain subscriptions)
+		noQueue := cy%4 >= 2
+		if noQueue {
+			s.rig.S.SetQueueGroup("")
+		}
+		last := lastOf[noQueue]
 		// the held subscription is the last one (the first Serve then finishes its start-up
 		// normally) or the one before it (its last subscription then fails on the closed
 		// connection, and the start-up is given up: that concerns the first run only)
 		held := last - cy%2
-		what := map[string]interface{}{"scenario": "Shutdown and a new Serve while the first Serve is still inside a subscription", "workers": workers, "cycle": cy, "subscriptions": last, "held_subscription": held}
+		what := map[string]interface{}{"scenario": "Shutdown and a new Serve while the first Serve is still inside a subscription", "workers": workers, "cycle": cy, "subscriptions": last, "held_subscription": held, "queue_group": map[bool]string{false: "<default>", true: ""}[noQueue]}
 		var nsub int32
 		arrived, release := make(chan struct{}), make(chan struct{})
 		conn1 := s.rig.C
@@ -1028,6 +1040,12 @@ func c03RestartDuringSubscribe(c *core.Ctx, p c03Params) {
 		}
 		if n := mon.CountGoroutines("go-res.(*Service).startWorker"); n != workers {
 			c.Violation("C03/worker-count-after-restart", fmt.Sprintf("the run served during the first run's last subscription has %d worker goroutines, %d are configured", n, workers), what)
+			s.rig.S.Shutdown()
+			return
+		}
+		if n := len(s.rig.C.Subs()); n != last {
+			c.Violation("C03/subscriptions-after-restart", fmt.Sprintf("the connection of the second run carries %d subscriptions, a run makes %d: the first Serve call went on subscribing after it had been shut down and the service served again", n, last),
+				map[string]interface{}{"scenario": what, "subscriptions": subjectsOf(s.rig.C.Subs())})
 			s.rig.S.Shutdown()
 			return
 		}
